@@ -70,6 +70,8 @@ pub const A_BADFLAG: u16 = 18;
 pub const A_READ_DUP: u16 = 19;
 /// write two bytes at offset 7: past end-of-file, leaving a hole
 pub const A_WRITE_HOLE: u16 = 20;
+/// read with ASYNC | IO_LINK: the unsupported flag must still be rejected
+pub const A_BADFLAG_ASYNC: u16 = 21;
 pub const A_R1_WRITE1: u16 = 30;
 pub const A_R1_READ0: u16 = 31;
 /// drain ring 0 with the k-th scripted shuffle value
@@ -82,6 +84,8 @@ enum K {
     Fsync,
     Cancel { target: u64 },
     BadFlag,
+    /// ASYNC (accepted on its own) combined with an unsupported flag
+    BadFlagAsync,
 }
 
 #[derive(Clone, Copy, Debug, Hash, PartialEq, Eq)]
@@ -197,10 +201,14 @@ impl USys {
             }
             K::Fsync => opcode::Fsync::new(fd).build(),
             K::Cancel { target } => opcode::AsyncCancel::new(*target).build(),
-            K::BadFlag => opcode::Read::new(fd, self.bufs[bi].as_mut_ptr(), 2).build(),
+            K::BadFlag | K::BadFlagAsync => opcode::Read::new(fd, self.bufs[bi].as_mut_ptr(), 2).build(),
         };
         let entry = entry.user_data(ud);
-        let entry = if bad { entry.flags(squeue::Flags::IO_LINK) } else { entry };
+        let entry = if bad {
+            entry.flags(if k == K::BadFlagAsync { squeue::Flags::ASYNC | squeue::Flags::IO_LINK } else { squeue::Flags::IO_LINK })
+        } else {
+            entry
+        };
         let pushed_now = self.subs.iter().filter(|s| s.ring == ring && s.st == St::Pushed).count();
         let ring_alive = self.rings[ring].is_some();
         let want_ok = ring_alive && pushed_now < self.cfg.depth_ring as usize;
@@ -235,7 +243,7 @@ impl USys {
         for i in queued {
             let k = self.subs[i].k.clone();
             match k {
-                K::BadFlag => {
+                K::BadFlag | K::BadFlagAsync => {
                     self.subs[i].st = St::Immediate(EINVAL);
                     self.feats.push("unsupported-flag");
                 }
@@ -404,7 +412,7 @@ impl USys {
                         data.len() as i32
                     }
                     K::Fsync => 0,
-                    K::Cancel { .. } | K::BadFlag => 0,
+                    K::Cancel { .. } | K::BadFlag | K::BadFlagAsync => 0,
                 }
             }
         }
@@ -414,7 +422,7 @@ impl USys {
         let s = self.subs[i].clone();
         let buf = *self.bufs[s.buf];
         match (&s.st, &s.k) {
-            (St::Cancelled, K::Read { .. }) | (St::Immediate(_), K::BadFlag) => {
+            (St::Cancelled, K::Read { .. }) | (St::Immediate(_), K::BadFlag) | (St::Immediate(_), K::BadFlagAsync) => {
                 if buf.iter().any(|b| *b != SENTINEL) {
                     return Err(Violation::new(
                         "buffer-touched",
@@ -551,6 +559,7 @@ impl USys {
                 self.push(0, K::Cancel { target: t }, None, false)?
             }
             A_BADFLAG => self.push(0, K::BadFlag, None, true)?,
+            A_BADFLAG_ASYNC => self.push(0, K::BadFlagAsync, None, true)?,
             A_READ_DUP => {
                 let t = self.subs.iter().rev().find(|s| s.ring == 0 && matches!(s.st, St::Pushed | St::InFlight) && !matches!(s.k, K::Cancel { .. })).map(|s| s.ud);
                 let already = self.feats.contains(&"duplicate-user-data");
@@ -714,6 +723,7 @@ impl System for USys {
             A_CANCEL_UNKNOWN => "ring0: push cancel(unknown user_data)".into(),
             A_CANCEL_DONE => "ring0: push cancel(an already completed operation)".into(),
             A_BADFLAG => "ring0: push read with IO_LINK (unsupported flag)".into(),
+            A_BADFLAG_ASYNC => "ring0: push read with ASYNC | IO_LINK (unsupported flag next to an accepted one)".into(),
             A_READ_DUP => "ring0: push read(off 1, len 1) re-using the user_data of the latest outstanding operation".into(),
             A_R1_WRITE1 => "ring1: push write(off 1, \"Q\")".into(),
             A_R1_READ0 => "ring1: push read(off 0, len 4)".into(),
